@@ -128,6 +128,22 @@ func mapLastFn(c, prev, cur int) int { return norm(cur*3 - prev + c) }
 func forAllPred(x int) bool          { return x%3 != 0 }
 func existsPred(x int) bool          { return x%4 == 0 }
 
+// mapLastSliceFn is the function of a MapLast over a slice-valued node
+func mapLastSliceFn(op string, c int, prev, cur []int) int {
+	if op == "len" {
+		return norm(len(cur) - len(prev) + c)
+	}
+	d := c
+	for _, v := range cur {
+		d += v
+	}
+	for _, v := range prev {
+		d -= v
+	}
+	return norm(d)
+}
+func sameLen(a, b []int) bool { return len(a) == len(b) }
+
 // accCapped is the function handed to slicei.Accumulate: append, keep the last `limit`
 func accCapped(limit int) func([]int, int) []int {
 	return func(prev []int, v int) []int {
@@ -156,6 +172,9 @@ const (
 	kAll, kAccumulate, kAccSorted            = "all", "accumulate", "accumulatesorted"
 	kFilter, kSort, kTakeFirst, kTakeLast    = "filter", "sort", "takefirst", "takelast"
 	kTakeFirstSearch, kTakeLastSearch        = "takefirstsearch", "takelastsearch"
+	// consumers that keep a previous value of a slice-valued node: they read right only if a
+	// value that was handed out is never written again
+	kMapLastS, kCutoffS = "maplastslice", "cutoffslice"
 )
 
 var mapArity = map[string]int{kMap3: 3, kMap4: 4, kMap5: 5, kMap6: 6, kMap7: 7, kMap8: 8}
@@ -164,10 +183,10 @@ var mapArity = map[string]int{kMap3: 3, kMap4: 4, kMap5: 5, kMap6: 6, kMap7: 7, 
 // everything a bind template can reach, so that they enter and leave the graph only between
 // passes (Observe / Unobserve) and the passes they run in are determined by the documentation
 var sensitive = map[string]bool{kCutoff2: true, kCutEqFunc: true, kSnapshot: true, kMapLast: true,
-	kAccumulate: true, kAccSorted: true, kWatch: true}
+	kAccumulate: true, kAccSorted: true, kWatch: true, kMapLastS: true, kCutoffS: true}
 
 var sliceKinds = map[string]bool{kAll: true, kAccumulate: true, kAccSorted: true, kFilter: true, kSort: true,
-	kTakeFirst: true, kTakeLast: true, kTakeFirstSearch: true, kTakeLastSearch: true}
+	kTakeFirst: true, kTakeLast: true, kTakeFirstSearch: true, kTakeLastSearch: true, kCutoffS: true}
 
 var bindKinds = map[string]bool{kBindIf: true, kBind3: true, kBind4: true}
 var clockKinds = map[string]bool{kAt: true, kAtIntervals: true, kSnapshot: true, kStep: true}
@@ -296,6 +315,13 @@ func (d *def) String() string {
 		return head + fmt.Sprintf("slicei.TakeFirstSearch(%s)[v>=%d]", in, d.C)
 	case kTakeLastSearch:
 		return head + fmt.Sprintf("slicei.TakeLastSearch(%s)[v>%d]", in, d.C)
+	case kMapLastS:
+		if d.Op == "len" {
+			return head + fmt.Sprintf("incrutil.MapLast(%s)[len(cur)-len(prev)+%d]", in, d.C)
+		}
+		return head + fmt.Sprintf("incrutil.MapLast(%s)[sum(cur)-sum(prev)+%d]", in, d.C)
+	case kCutoffS:
+		return head + fmt.Sprintf("Cutoff(%s)[len(old)==len(new)]", in)
 	}
 	return head + fmt.Sprintf("%s(%s)", d.Kind, in)
 }
@@ -342,7 +368,7 @@ func (g *gen) add(d *def) int {
 		if d.Op == "asc" {
 			d.sorted = 1
 		}
-	case kFilter, kTakeFirst, kTakeLast, kTakeFirstSearch, kTakeLastSearch:
+	case kFilter, kTakeFirst, kTakeLast, kTakeFirstSearch, kTakeLastSearch, kCutoffS:
 		d.sorted = g.p.defs[d.In[0]].sorted
 	}
 	g.p.defs = append(g.p.defs, d)
@@ -448,6 +474,7 @@ var kindTable = []struct {
 	{kMapLast, 4}, {kFirst, 2}, {kLast, 2}, {kHash, 3},
 	{kAll, 4}, {kAccumulate, 4}, {kAccSorted, 4},
 	{kFilter, 3}, {kSort, 3}, {kTakeFirst, 3}, {kTakeLast, 3}, {kTakeFirstSearch, 3}, {kTakeLastSearch, 3},
+	{kMapLastS, 5}, {kCutoffS, 4},
 }
 
 func (g *gen) node() {
@@ -525,12 +552,22 @@ func (g *gen) node() {
 		g.add(&def{Kind: kind, C: r.Range(2, 6), In: g.pickInts(1)})
 	case kAccSorted:
 		g.add(&def{Kind: kind, Op: order, In: g.pickInts(1)})
-	case kFirst, kLast, kHash, kFilter, kSort, kTakeFirst, kTakeLast:
+	case kFirst, kLast, kHash, kFilter, kSort, kTakeFirst, kTakeLast, kMapLastS, kCutoffS:
 		s := g.pick(anySlice)
+		if (kind == kMapLastS || kind == kCutoffS) && r.Chance(1, 2) {
+			// rather over something that builds its value from its previous one
+			if acc := g.pick(func(d *def) bool { return d.Kind == kAccSorted || d.Kind == kAccumulate }); acc >= 0 {
+				s = acc
+			} else {
+				s = g.add(&def{Kind: kAccSorted, Op: order, In: g.pickInts(1)})
+			}
+		}
 		if s < 0 {
 			s = g.add(&def{Kind: kAll, In: g.pickInts(r.Range(1, 4))})
 		}
 		switch kind {
+		case kMapLastS:
+			g.add(&def{Kind: kind, Op: []string{"sum", "sum", "len"}[r.Intn(3)], C: r.Intn(10), In: []int{s}})
 		case kFilter:
 			g.add(&def{Kind: kind, C: r.Range(2, 4), In: []int{s}})
 		case kSort:
@@ -977,6 +1014,10 @@ func (w *world) buildNode(d *def) {
 		s = slicei.TakeFirstSearch(g, sl(0), func(v int) bool { return v >= d.C })
 	case kTakeLastSearch:
 		s = slicei.TakeLastSearch(g, sl(0), func(v int) bool { return v > d.C })
+	case kMapLastS:
+		n = incrutil.MapLast(g, sl(0), func(prev, cur []int) int { return mapLastSliceFn(d.Op, d.C, prev, cur) })
+	case kCutoffS:
+		s = incr.Cutoff(g, sl(0), sameLen)
 	default:
 		panic("kindtrace: unknown kind " + d.Kind)
 	}
@@ -1020,6 +1061,7 @@ type rnode struct {
 	held     int   // cutoffs: the value last let through (initially the zero value)
 	frozen   bool  // freeze, timer(1h): has its value
 	last     int   // maplast
+	lastS    []int // maplastslice: what its input read when it last ran
 	taken    bool  // snapshot
 	armed    int   // clock kinds: minute of the next trigger, -1 none
 	watch    []int // watch: Values()
@@ -1429,6 +1471,14 @@ func (r *ref) eval(id int) bool {
 			}
 			n.s = append(n.s, v)
 		}
+	case kMapLastS: // the previous value is a value: what it held then, whatever the input did since
+		n.v = mapLastSliceFn(d.Op, d.C, n.lastS, is())
+		n.lastS = append([]int(nil), is()...)
+	case kCutoffS: // holds the last value let through (initially the zero value, nil)
+		if sameLen(n.s, is()) {
+			return done(false)
+		}
+		n.s = append([]int(nil), is()...)
 	case kTakeLastSearch: // from the first element > C of an ascending list on
 		n.s = nil
 		for i, v := range is() {
@@ -1452,7 +1502,14 @@ type failure struct {
 	exp, got        string
 }
 
-type stats struct{ serial, parallel, compared int }
+type stats struct{ serial, parallel, compared, retained int }
+
+// handed is a value a slice-valued node handed out after a pass: the very slice Value()
+// returned, and what it held at that moment
+type handed struct {
+	id, step  int
+	got, copy []int
+}
 
 func sameSlice(a, b []int) bool {
 	if len(a) != len(b) {
@@ -1477,6 +1534,8 @@ func run(p *prog, steps []step) (f *failure, st stats) {
 	}()
 	w, r := newWorld(p), newRef(p)
 	eg := incr.ExpertGraph(w.g)
+	var retained []handed
+	latest := map[int][]int{}
 	for i, s := range steps {
 		at = i
 		switch s.Op {
@@ -1525,6 +1584,29 @@ func run(p *prog, steps []step) (f *failure, st stats) {
 					what: fmt.Sprintf("%s returned an error on a program without failing functions: %.200v", s, err)}, st
 			}
 			r.pass()
+			// values are values: what a node handed out after an earlier pass (and a dependent
+			// or the caller may have kept) must not be written again
+			for _, h := range retained {
+				if !sameSlice(h.got, h.copy) {
+					d := p.defs[h.id]
+					return &failure{key: "kinds:" + d.Kind + ":handed-out-value-mutated", kind: d.Kind, step: i, node: h.id,
+						exp: fmt.Sprint(h.copy), got: fmt.Sprint(h.got),
+						what: fmt.Sprintf("the slice that %s returned from Value() after step %d held %v then; after step %d (%s) that same slice holds %v",
+							d, h.step, h.copy, i, s, h.got)}, st
+				}
+			}
+			for id, d := range p.defs {
+				if !d.Slice || !r.inGraph[id] {
+					continue
+				}
+				v := w.slices[id].Value()
+				if old := latest[id]; len(v) == 0 || (len(old) == len(v) && &old[0] == &v[0]) {
+					continue // nothing to watch, or the slice already retained
+				}
+				latest[id] = v
+				retained = append(retained, handed{id: id, step: i, got: v, copy: append([]int(nil), v...)})
+				st.retained++
+			}
 			if f := compare(w, r, i, &st); f != nil {
 				return f, st
 			}
@@ -1640,7 +1722,7 @@ func shrink(p *prog, steps []step, f *failure) ([]step, *failure) {
 }
 
 func (f *failure) describe(p *prog) string {
-	if f.node < 0 {
+	if f.node < 0 || f.what != "" {
 		return f.what
 	}
 	return fmt.Sprintf("after step %d the node %s reads %s; evaluating the program on the current inputs and the recorded history gives %s",
@@ -1697,6 +1779,7 @@ func main() {
 		rep.Histogram["passes:serial"] += st.serial
 		rep.Histogram["passes:parallel"] += st.parallel
 		rep.Histogram["nodes-compared"] += st.compared
+		rep.Histogram["handed-out-slices-retained"] += st.retained
 		if f == nil {
 			continue
 		}
@@ -1719,9 +1802,9 @@ func main() {
 	}
 	rep.Rule = fmt.Sprintf("%d random int-valued programs of 11-35 nodes over Map3..8, MapIf, BindIf/Bind3/Bind4 (templates to depth 3 with nested BindIf, "+
 		"referring to outer nodes), Cutoff2 and the named cutoffs, Freeze, Func, Watch, Timer, At/AtIntervals/Snapshot/StepFunction, ArrayFold/ForAll/Exists/DependOn/All, "+
-		"incrutil.CutoffUnchanged/MapLast and slicei, one history each of 10-60 steps (Set incl. unchanged values, Clock.Advance, SetStale, observe/unobserve, passes: "+
+		"incrutil.CutoffUnchanged/MapLast and slicei (with MapLast and a length Cutoff over the slice-valued nodes, which keep a previous value), one history each of 10-60 steps (Set incl. unchanged values, Clock.Advance, SetStale, observe/unobserve, passes: "+
 		"all Stabilize, all ParallelStabilize at parallelism 4, or mixed); evaluations = passes; after every pass every node in the graph, every observer and "+
-		"Watch.Values() compared with an independent reference evaluation, CheckInvariants, NumNodes()==0 after the last Unobserve", rep.Distinct)
+		"Watch.Values() compared with an independent reference evaluation, every slice handed out by Value() after an earlier pass checked to be unchanged, CheckInvariants, NumNodes()==0 after the last Unobserve", rep.Distinct)
 	if *jsonOut != "" {
 		if err := rep.Write(*jsonOut); err != nil {
 			fmt.Fprintln(os.Stderr, err)
